@@ -64,8 +64,12 @@ impl Out {
         Done { id: case.id, call_line, ret_line, sol, low_naccpt, status }
     }
     fn pair(&mut self, prop: &str, mode: &str, a: &Done, b: &Done, note: &str) {
+        self.pair_f(prop, mode, a, b, note, true);
+    }
+    /// `fact`: a relational fact computed here from the two returned solutions (named in `note`)
+    fn pair_f(&mut self, prop: &str, mode: &str, a: &Done, b: &Done, note: &str, fact: bool) {
         let v = json!({"e": "pair", "prop": prop, "mode": mode, "a": a.id, "b": b.id, "ca": a.call_line, "la": a.ret_line,
-                       "cb": b.call_line, "lb": b.ret_line, "note": note});
+                       "cb": b.call_line, "lb": b.ret_line, "note": note, "fact": fact});
         self.emit(&v);
     }
 }
@@ -79,8 +83,56 @@ fn base(method: &str, prob: Problem, x0: f64, xend: f64) -> Case {
         id: 0, api: "solve_ivp".into(), method: method.into(), problem: prob, x0, xend, y0,
         rtol: vec![1e-3], atol: vec![1e-6], first_step: None, max_step: None, max_steps: None, t_eval: None, dense: false,
         events: vec![], jac: "fd".into(), jac_storage: "full".into(), mass_storage: "identity".into(), mass: "none".into(),
-        script: vec![], tags: vec![], budget: None, map: "id".into(),
+        script: vec![], tags: vec![], budget: None, low_nodense: false, map: "id".into(),
     }
+}
+
+/// every event the non-terminal run `a` reports strictly before the stop of the terminal run `b` is reported by `b` too
+fn keeps_earlier(a: &Done, b: &Done, dir: f64) -> bool {
+    let (sa, sb) = match (&a.sol, &b.sol) { (Some(x), Some(y)) => (x, y), _ => return true };
+    if b.status != "UserInterrupt" { return true; }
+    let tstop = match sb.t.last() { Some(t) => *t, None => return true };
+    for i in 0..sa.t_events.len() {
+        for (j, te) in sa.t_events[i].iter().enumerate() {
+            if dir * (tstop - *te) > 0.0 {
+                match sb.t_events.get(i).and_then(|v| v.get(j)) {
+                    Some(tb) if tb.to_bits() == te.to_bits() => {}
+                    _ => return false,
+                }
+            }
+        }
+    }
+    true
+}
+
+/// event lists of the reflected run mirror those of the reference run (counts equal, times to 1e-9)
+fn events_mirror(a: &Done, b: &Done) -> bool {
+    let (sa, sb) = match (&a.sol, &b.sol) { (Some(x), Some(y)) => (x, y), _ => return true };
+    if sa.t_events.len() != sb.t_events.len() { return false; }
+    for i in 0..sa.t_events.len() {
+        if sa.t_events[i].len() != sb.t_events[i].len() { return false; }
+        for j in 0..sa.t_events[i].len() {
+            let (ta, tb) = (sa.t_events[i][j], sb.t_events[i][j]);
+            if !((ta + tb).abs() <= 1e-9 * (1.0 + ta.abs())) { return false; }
+        }
+    }
+    true
+}
+
+/// where a requested time coincides bit-for-bit with an accepted step end of the grid run, the reported value is the
+/// state of that step end to rounding
+fn grid_values_ok(grid: &Done, tev: &Done, rel: f64) -> bool {
+    let (sg, st) = match (&grid.sol, &tev.sol) { (Some(x), Some(y)) => (x, y), _ => return true };
+    for (i, t) in st.t.iter().enumerate() {
+        if let Some(k) = sg.t.iter().position(|g| g.to_bits() == t.to_bits()) {
+            if st.status == ivp::status::Status::UserInterrupt && i + 1 == st.t.len() { continue; }
+            for q in 0..sg.y[k].len() {
+                let (u, v) = (sg.y[k][q], st.y[i][q]);
+                if !((u - v).abs() <= rel * u.abs().max(v.abs()) + 1e-12) { return false; }
+            }
+        }
+    }
+    true
 }
 
 fn linspace(a: f64, b: f64, n: usize) -> Vec<f64> {
@@ -156,6 +208,22 @@ fn fam_core(o: &mut Out, quick: bool, rng: &mut Rng) {
             c.tags = vec!["small_x0+first_step".into()];
             o.run(c);
         }
+    }
+    // implicit methods driven into Newton failures / rejections (oversized first step on a nonlinear problem)
+    for m in ["RADAU", "BDF"] {
+        for (x0, xend, fs) in [(0.0, 5.0, 2.0), (5.0, 0.0, -2.0), (0.0, 3.0, 3.0)] {
+            for jac in ["fd", "user"] {
+                let mut c = base(m, Problem::new("vdp", 1.0), x0, xend);
+                c.first_step = Some(fs);
+                c.jac = jac.into();
+                c.tags = vec!["newton_stress".into()];
+                o.run(c);
+            }
+        }
+        let mut c = base(m, Problem::new("signc", 0.37), 0.0, 1.0);
+        c.first_step = Some(0.5);
+        c.tags = vec!["newton_stress_discontinuous".into()];
+        o.run(c);
     }
     // degenerate front-end cases
     for m in METHODS {
@@ -266,6 +334,51 @@ fn fam_lowlevel(o: &mut Out, quick: bool, rng: &mut Rng) {
                     o.pair("C19", "equal_cb", &plain, &r, "ModifiedSolution with an unchanged state is a no-op");
                 }
             }
+            // the landing step is attempted first and rejected: first_step >= interval at a tight tolerance
+            if *m != "RK4" {
+                for fsf in [1.0, 10.0] {
+                    let mut c = base(m, Problem::new("sho", 0.0), *x0, *xend);
+                    c.api = "low".into();
+                    c.rtol = vec![1e-8];
+                    c.atol = vec![1e-8];
+                    c.first_step = Some((xend - x0) * fsf);
+                    c.max_step = Some(f64::INFINITY);
+                    c.tags = vec![format!("tight+first_step={}span", fsf)];
+                    o.run(c);
+                }
+            }
+            // solvers built with dense_output(false): same protocol, no interpolant
+            if *m != "BDF" {
+                let mut c = base(m, Problem::new("logistic", 0.0), *x0, *xend);
+                c.api = "low".into();
+                c.low_nodense = true;
+                if *m == "RK4" { c.first_step = Some((xend - x0) / 7.0); }
+                c.tags = vec!["nodense".into()];
+                let nd = o.run(c.clone());
+                let mut cd = c.clone();
+                cd.low_nodense = false;
+                cd.tags = vec!["dense_ref".into()];
+                let dr = o.run(cd);
+                o.pair("C19", "equal_cb", &dr, &nd, "dense_output(false) does not change the accepted-step sequence");
+            }
+            // doubling at the initial callback
+            for p in [Problem::new("lin2", 0.0), Problem::new("decay", 1.0)] {
+                let mut c = base(m, p, *x0, *xend);
+                c.api = "low".into();
+                c.atol = vec![0.0];
+                c.rtol = vec![1e-4];
+                c.jac = "user".into();
+                if *m == "RK4" { c.first_step = Some((xend - x0) / 10.0); }
+                let mut ca = c.clone();
+                ca.script = vec![Script { k: 0, action: "modify_same".into() }];
+                ca.tags = vec!["modify_same@0".into()];
+                let a = o.run(ca);
+                let mut cb = c.clone();
+                cb.script = vec![Script { k: 0, action: "modify_x2".into() }];
+                cb.tags = vec!["modify_x2@0".into()];
+                let b = o.run(cb);
+                o.pair("C19", "double_from:0", &a, &b, "doubling the state at the initial callback doubles everything that follows");
+            }
             // doubling on a linear homogeneous problem with pure relative control
             for p in [Problem::new("lin2", 0.0), Problem::new("decay", 1.0)] {
                 let mut c = base(m, p, *x0, *xend);
@@ -306,7 +419,8 @@ fn fam_observer(o: &mut Out, quick: bool, rng: &mut Rng) {
         c.rtol = vec![10f64.powi(-3 - e)];
         c.atol = vec![10f64.powi(-6 - e)];
         if (m == "RADAU" || m == "BDF") && rng.chance(0.5) { c.jac = "user".into(); }
-        c.tags = vec!["plain".into()];
+        if ci % 3 == 0 { c.first_step = Some((xend - x0) * *rng.pick(&[1e-3, 0.05])); }
+        c.tags = vec![if c.first_step.is_some() { "plain+first_step".into() } else { "plain".into() }];
         let a = o.run(c.clone());
         let evs = vec![EventSpec { kind: if p.dim() > 1 { "y0y1".into() } else { "y0-a".into() }, a: 0.7, dir: "All".into(), term: 0 },
                        EventSpec { kind: "t-c".into(), a: x0 + (xend - x0) * 0.37, dir: "All".into(), term: 0 }];
@@ -375,6 +489,14 @@ fn fam_terminal(o: &mut Out, quick: bool, rng: &mut Rng) {
         c.events = vec![e1, e2, e3];
         if ci % 3 == 1 { c.t_eval = Some(linspace(x0, xend, 25)); }
         if ci % 3 == 2 { c.dense = true; }
+        if ci % 4 >= 2 && m != "RK4" {
+            // large steps: several event functions cross within one accepted step
+            c.rtol = vec![1e-2];
+            c.atol = vec![1e-2];
+            c.first_step = Some((xend - x0) * 0.25);
+            c.events[0].a = 0.5;
+            c.events[1] = EventSpec { kind: "y0-a".into(), a: 0.2, dir: "All".into(), term: 0 };
+        }
         c.tags = vec!["nonterminal".into()];
         let a = o.run(c.clone());
         for which in 0..3 {
@@ -383,7 +505,9 @@ fn fam_terminal(o: &mut Out, quick: bool, rng: &mut Rng) {
             v.events[which].term = if which == 2 { 1 } else { cnt };
             v.tags = vec![format!("terminal_fn{}_count{}", which, v.events[which].term)];
             let b = o.run(v);
-            o.pair("C10", "terminal_prefix", &a, &b, "terminal run is a prefix of the non-terminal run");
+            let dir = if xend > x0 { 1.0 } else { -1.0 };
+            let ke = keeps_earlier(&a, &b, dir);
+            o.pair_f("C10", "terminal_prefix", &a, &b, "terminal run is a prefix of the non-terminal run; fact: events before the stop are kept", ke);
         }
     }
 }
@@ -392,13 +516,38 @@ fn fam_terminal(o: &mut Out, quick: bool, rng: &mut Rng) {
 /// C13: exact symmetries give bit-identical trajectories.
 fn fam_symmetry(o: &mut Out, quick: bool, rng: &mut Rng) {
     let ncase = if quick { 12 } else { 120 };
-    let probs = vec![Problem::new("lin2", 0.0), Problem::new("decay", 1.0), Problem::new("lin3", 0.0), Problem::new("sho", 0.0), Problem::new("logistic", 0.0)];
+    let probs = vec![Problem::new("lin2", 0.0), Problem::new("decay", 1.0), Problem::new("vdp", 5.0), Problem::new("lin3", 0.0), Problem::new("sho", 0.0), Problem::new("logistic", 0.0)];
+    // reflection with events, incl. two event functions crossing within one (large) step and one of them terminal
+    for (mi, m) in ADAPTIVE.iter().enumerate() {
+        for (x0, xend) in [(0.0, 3.0), (3.0, 0.0)] {
+            let mut c = base(m, Problem::new("sho", 0.0), x0, xend);
+            c.rtol = vec![1e-2];
+            c.atol = vec![1e-2];
+            c.first_step = Some((xend - x0) * 0.5);
+            c.jac = "user".into();
+            c.events = vec![EventSpec { kind: "y0-a".into(), a: 0.5, dir: "All".into(), term: 0 },
+                            EventSpec { kind: "y0-a".into(), a: 0.2, dir: "All".into(), term: if mi % 2 == 0 { 1 } else { 0 } }];
+            c.tags = vec!["reference+events".into()];
+            let a = o.run(c.clone());
+            let mut v = c.clone();
+            v.problem.reflect = true;
+            v.x0 = -x0;
+            v.xend = -xend;
+            v.first_step = c.first_step.map(|h| -h);
+            v.map = "reflect".into();
+            v.tags = vec!["reflect+events".into()];
+            let b = o.run(v);
+            let ok = events_mirror(&a, &b);
+            o.pair_f("C13", "mirror_events", &a, &b, "fact: event lists mirror under time reflection (counts equal, times to 1e-9)", ok);
+        }
+    }
     for ci in 0..ncase {
         let m = ADAPTIVE[ci % ADAPTIVE.len()];
         let implicit = m == "RADAU" || m == "BDF";
         let p = probs[(ci / ADAPTIVE.len()) % probs.len()].clone();
         let linear = matches!(p.kind.as_str(), "lin2" | "lin3" | "decay" | "sho");
-        let (x0, xend) = *rng.pick(&[(0.0, 1.0), (1.0, 0.0), (-1.0, 0.5)]);
+        let (mut x0, mut xend) = *rng.pick(&[(0.0, 1.0), (1.0, 0.0), (-1.0, 0.5)]);
+        if p.kind == "vdp" { x0 *= 6.0; xend *= 6.0; }       // long enough for rejected steps
         let mut c = base(m, p.clone(), x0, xend);
         let e = rng.below(4) as i32;
         c.rtol = vec![10f64.powi(-3 - e)];
@@ -472,13 +621,13 @@ fn fam_symmetry(o: &mut Out, quick: bool, rng: &mut Rng) {
 // ----------------------------------------------------------------------------------------- storage
 /// C15: mass / Jacobian storage and the absence of a mass matrix do not change the trajectory.
 fn fam_storage(o: &mut Out, quick: bool, rng: &mut Rng) {
-    let probs = vec![Problem::new("lin3", 0.0), Problem::new("robertson", 0.0), Problem::new("vdp", 10.0), Problem::new("decay", 3.0), Problem::new("lin2", 0.0)];
+    let probs = vec![Problem::new("chain4", 60.0), Problem::new("lin3", 0.0), Problem::new("robertson", 0.0), Problem::new("vdp", 10.0), Problem::new("decay", 3.0), Problem::new("lin2", 0.0)];
     let ncase = if quick { 6 } else { 40 };
     for ci in 0..ncase {
         let p = probs[ci % probs.len()].clone();
         let mut p = p;
         if ci >= probs.len() && p.base_dim() <= 2 { p.copies = 1 + rng.below(3); }
-        let xend = if p.kind == "robertson" { 40.0 } else { 1.0 };
+        let xend = if p.kind == "robertson" { 40.0 } else if p.kind == "chain4" { 6.0 } else { 1.0 };
         for m in ["RADAU", "BDF"] {
             let mut c = base(m, p.clone(), 0.0, xend);
             c.jac = "user".into();
@@ -493,6 +642,18 @@ fn fam_storage(o: &mut Out, quick: bool, rng: &mut Rng) {
             let b = o.run(v);
             o.pair("C15", "equal", &a, &b, "Jacobian storage Full vs Banded");
             if m == "RADAU" {
+                let nn = p.dim();
+                let asym: Vec<(String, &str)> = if nn >= 2 {
+                    vec![("banded:0,1".to_string(), "none"), ("banded:1,0".to_string(), "none"), (format!("banded:{},0", nn - 1), "none"), ("banded:0,1".to_string(), "identity")]
+                } else { vec![] };
+                for (ms, mass) in asym.iter().map(|(a, b)| (a.as_str(), *b)) {
+                    let mut v = c.clone();
+                    v.mass_storage = ms.into();
+                    v.mass = mass.into();
+                    v.tags = vec![format!("mass_storage={}+mass={}", ms, mass)];
+                    let b = o.run(v);
+                    o.pair("C15", "equal", &a, &b, "asymmetric banded mass storage / no mass supplied");
+                }
                 for (ms, mass) in [("full", "none"), ("banded", "none"), ("full", "identity"), ("banded", "identity"), ("identity", "identity")] {
                     let mut v = c.clone();
                     v.mass_storage = ms.into();
@@ -572,6 +733,11 @@ fn fam_teval(o: &mut Out, quick: bool, rng: &mut Rng) {
         let mut recs = Vec::new();
         for v in variants { recs.push(o.run(v)); }
         o.pair("C05", "dense_indep", &recs[0], &recs[1], "t_eval values do not depend on dense_output");
+        let rel = if m == "BDF" { 1e-7 } else { 1e-9 };
+        for r in &recs {
+            let ok = grid_values_ok(&a, r, rel);
+            o.pair_f("C05", "grid_values", &a, r, "fact: a requested time equal to an accepted step end carries that step's state (to rounding)", ok);
+        }
     }
 }
 
